@@ -1520,6 +1520,11 @@ impl<'a> Gen<'a> {
     }
 
     pub fn generate(mut self) -> (Prog, u32) {
+        // the scene layer draws from its own prefix of the choice sequence so that the executable part cannot starve it
+        let all = self.choices;
+        let scene_len = if self.prof.pipelines { all.len().min(96) } else { 0 };
+        let (scene_choices, exec_choices) = all.split_at(scene_len);
+        self.choices = exec_choices;
         if self.prof.enums {
             for _ in 0..self.pick(3) {
                 self.gen_enum();
@@ -1567,6 +1572,9 @@ impl<'a> Gen<'a> {
         }
         if self.prof.pipelines {
             let (lo, hi) = self.prof.pipeline_range;
+            self.choices = scene_choices;
+            self.pos = 0;
+            self.fuel = 4000;
             self.gen_scene(lo, hi);
         }
         let d = self.diverted;
@@ -1624,7 +1632,8 @@ impl<'a> Gen<'a> {
             "Buffer" => vec![n, t(idx), t(".Load(0)")],
             "RWBuffer" => vec![n, t(idx), t("[0]")],
             "ByteAddressBuffer" | "RWByteAddressBuffer" => vec![t("asfloat("), n, t(idx), t(".Load4(0))")],
-            "StructuredBuffer" | "RWStructuredBuffer" => vec![n, t(idx), t("[0]."), Frag::N(srv)],
+            // the Metal back end cannot rewrite a member access on `buffer[i]`: elements are read through Load
+            "StructuredBuffer" | "RWStructuredBuffer" => vec![n, t(idx), t(".Load(0)."), Frag::N(srv)],
             "ConstantBuffer" => vec![n, t(idx), t("."), Frag::N(srv)],
             "cbuffer" => vec![Frag::N(r.cbuffer_members[0].0)],
             _ => vec![t("float4(0.0, 0.0, 0.0, 0.0)")],
@@ -1694,6 +1703,9 @@ impl<'a> Gen<'a> {
                     "SamplerState" | "SamplerComparisonState" | "StaticSampler" | "BufferAddress" | "RWBufferAddress" | "RaytracingAccelerationStructure" | "TextureCube" => {
                         frags.push(t("    "));
                         frags.push(Frag::N(r.name));
+                        if r.array.is_some() {
+                            frags.push(t("[1]"));
+                        }
                         frags.push(t(";\n"));
                     }
                     _ => {
@@ -1721,8 +1733,16 @@ impl<'a> Gen<'a> {
         // pipelines
         let np = min_pipelines + self.pick(max_pipelines - min_pipelines + 1);
         for _ in 0..np {
-            let kind = ["compute", "vertex_pixel", "compute", "mesh_pixel", "task_mesh", "vertex_pixel"][self.pick(6)];
-            let pname = self.fresh("Pipe");
+            let kind = ["compute", "vertex_pixel", "compute", "mesh_pixel", "task_mesh", "vertex_pixel", "compute", "vertex_pixel", "compute", "vertex_pixel"][self.pick(10)];
+            // half of the later pipelines extend an earlier pipeline's name (prefix-related names)
+            let pname = if !self.prog.pipelines.is_empty() && self.pick(2) == 0 {
+                let pi = self.pick(self.prog.pipelines.len());
+                let prev = self.prog.pipelines[pi].name;
+                let hint = self.prog.names[prev].clone();
+                self.fresh(&hint)
+            } else {
+                self.fresh("Pipe")
+            };
             let default_group = if self.pick(3) == 0 { Some(self.pick(3) as u32) } else { None };
             let mut reachable: Vec<usize> = Vec::new();
             let mut body = |g: &mut Gen, reachable: &mut Vec<usize>| -> Vec<Frag> {
@@ -2339,5 +2359,5 @@ pub fn generate(choices: &[u32], prof: Profile) -> (Prog, String, u32) {
 }
 
 pub fn choices_strategy(max: usize) -> impl proptest::strategy::Strategy<Value = Vec<u32>> {
-    proptest::collection::vec(proptest::num::u32::ANY, 20..max)
+    proptest::collection::vec(proptest::num::u32::ANY, 120..max.max(121))
 }
